@@ -51,6 +51,12 @@ def schedules(tier):
                     if t["name"] == "mixed" and tier == "quick" and sig in ("hup", "quit") and reaction == "exit3":
                         continue
                     out.append({"template": t["name"], "when": "during", "k": k, "sig": sig, "reaction": reaction})
+            # two signals while one command runs: SIGTERM after another fatal signal is still forwarded, and the first
+            # signal is the one just exits with
+            if tier != "quick" or k == 0:
+                for first in ("hup", "int", "quit"):
+                    for reaction in ("exit0", "exit3"):
+                        out.append({"template": t["name"], "when": "during", "k": k, "sig": first, "sig2": "term", "reaction": reaction})
     return out
 
 
@@ -72,7 +78,7 @@ def model_steps(t, s):
         steps.append(g)
     else:
         st = {"exit0": "ok", "exit3": {"code": {"n": 3}}, "dies": {"signal": {"n": SIGNUM[s["sig"]]}}}[s["reaction"]]
-        steps += ["spawn", g, {"finish": {"st": st}}]
+        steps += ["spawn", g] + ([{"signal": {"g": s["sig2"]}}] if s.get("sig2") else []) + [{"finish": {"st": st}}]
     for i in range(len(t["cmds"])):
         steps += ["spawn", {"finish": {"st": "ok"}}]
     return steps
@@ -93,7 +99,7 @@ def run_schedule(t, s):
         occurrence = [c[0] for c in t["cmds"][:s["k"]]].count(key)
         if s["when"] == "during":
             acts = []
-            if s["sig"] == "term" and s["reaction"] != "dies":
+            if (s["sig"] == "term" or s.get("sig2") == "term") and s["reaction"] != "dies":
                 acts.append("trap:15")
             acts.append("block:" + bf)
             acts.append("report:" + rf)
@@ -120,6 +126,10 @@ def run_schedule(t, s):
                     os.kill(p.pid, SIGS[s["sig"]])
                     if not wait_for(lambda: os.path.exists(marker) and os.path.getsize(marker) > 0):
                         problem = "signal was not processed by the handler (no marker)"
+                    if s.get("sig2") and not problem:
+                        os.kill(p.pid, SIGS[s["sig2"]])
+                        if not wait_for(lambda: len(open(marker).read().split("\n")) > 2):
+                            problem = "second signal was not processed by the handler (no marker)"
                     entries = C.read_vsh_log(logp)
                     child = entries[-1]["pid"] if entries else None
                     if s["reaction"] == "dies" and s["sig"] != "term" and child:
@@ -303,12 +313,12 @@ def run(report):
             if r["exit"] != want["exit"]:
                 report.failure("c13-exit-code:%s" % (s["reaction"] or "idle"), "wrong exit status after the signal: got %s want %s" % (r["exit"], want["exit"]), replay)
                 continue
-            if s["when"] == "during" and s["sig"] == "term" and s["reaction"] != "dies":
+            if s["when"] == "during" and (s["sig"] == "term" or s.get("sig2") == "term") and s["reaction"] != "dies":
                 stats["sigterm_forward_checked"] += 1
                 if r["child_saw"] != ["15"]:
                     report.failure("c13-term-not-forwarded", "SIGTERM was not forwarded to the running command", replay)
                     continue
-            if s["when"] == "during" and s["sig"] != "term" and s["reaction"] != "dies" and r["child_saw"] not in ([], None):
+            if s["when"] == "during" and s["sig"] != "term" and not s.get("sig2") and s["reaction"] != "dies" and r["child_saw"] not in ([], None):
                 report.failure("c13-unexpected-forward", "a signal other than SIGTERM was forwarded", replay)
                 continue
         # correspondence with the Lean transition system (record = true is what the property needs)
@@ -322,7 +332,7 @@ def run(report):
     report.coverage.update({
         "evaluations": stats["schedules"],
         "distinct_nontrivial": len(distinct),
-        "rule": "forced schedules: 8 program templates (lines with/without `-`, backtick in assignment and interpolation, script dependency, subsequent, second command-line recipe; entry through --choose, --command and --evaluate) x every command index x delivery {while it runs, idle right before it} x {HUP,INT,QUIT,TERM} x child reaction {exit 0, exit 3, dies from the signal}; distinct = distinct (schedule, exit, spawned)",
+        "rule": "forced schedules: 8 program templates (lines with/without `-`, backtick in assignment and interpolation, script dependency, subsequent, second command-line recipe; entry through --choose, --command and --evaluate) x every command index x delivery {while it runs, idle right before it} x {HUP,INT,QUIT,TERM} x child reaction {exit 0, exit 3, dies from the signal}, plus SIGTERM following HUP / INT / QUIT while the same command runs (still forwarded; the first signal decides the exit status); distinct = distinct (schedule, exit, spawned)",
         "samples": samples,
         "exhaustive": True,
         "traces_validated_against_impl": stats["schedules"],
